@@ -306,7 +306,7 @@ def main():
         ],
         checks=checks,
         not_applicable=[dict(property_id=p, reason=r) for p, r in sorted(PENDING.items())],
-        notes='See DESIGN.md. known_findings.json lists genuine defects that are recorded rather than repaired.',
+        notes='See DESIGN.md. known_findings.json lists genuine defects that are recorded rather than repaired (and, as "fixed:" lines, the ones repaired by fix: commits in /repo). The level texts name each check\'s core enumeration; the alphabets grew with seven waves of seeded changes - DESIGN.md section 8 ("Alphabets as built") and each evidence file\'s coverage.rule / coverage.bounds carry what a run actually covered.',
     )
     with open(os.path.join(HERE, 'MANIFEST.json'), 'w') as f:
         json.dump(m, f, indent=1)
